@@ -756,7 +756,8 @@ def record_c13(binary, tier, seed):
         steps = [{"op": "observe"}] + opening + body + english + again + [{"op": "recheck"}]
         prog, out = os.path.join(d, "prog.json"), os.path.join(d, "trace.ndjson")
         json.dump({"steps": steps}, open(prog, "w"))
-        vlib.run_harness(binary, ["prog", "-arg", prog, "-seed", str(seed), "-out", out])
+        vlib.run_harness(binary, ["prog", "-arg", prog, "-seed", str(seed), "-out", out],
+                         env_extra=({"GOMAXPROCS": str([1, 2, 4][i % 3])} if i % 4 else None))
         lines += vlib.read_trace(out)
     return lines, len(programs), {"fresh_processes": len(programs), "graph_edges_covered": len(edges), "ordered_first_use_pairs": npair,
                                   "exhaustive_edge_cover": True}
@@ -848,13 +849,15 @@ def conc_step(code, slotmap, rng):
     return {"op": "new", "n": rng.choice([12, 24, 13]), "lang": lang}
 
 
-def run_conc(binary, goroutines, replicas, seed, d):
+def run_conc(binary, goroutines, replicas, seed, d, procs=None):
     prog, out, rl = os.path.join(d, "prog.json"), os.path.join(d, "trace.ndjson"), os.path.join(d, "race")
     for f in os.listdir(d):
         if f.startswith("race"):
             os.unlink(os.path.join(d, f))
     json.dump({"goroutines": goroutines, "replicas": replicas}, open(prog, "w"))
     env = dict(os.environ, VERIF_DATA=os.path.join(vlib.SPEC, "data"), GORACE="log_path=%s atexit_sleep_ms=0 halt_on_error=0" % rl)
+    if procs:
+        env["GOMAXPROCS"] = str(procs)      # the same programs on 1, 2, 4 processors and on all of them
     r = subprocess.run(["timeout", "300", binary, "conc", "-arg", prog, "-seed", str(seed), "-out", out], capture_output=True, text=True, env=env)
     crash = None
     if r.returncode not in (0, 66):
@@ -899,7 +902,7 @@ def record_c12(binary, tier, seed):
     dirs = [vlib.scratch("verif-conc-") for _ in range(8)]
 
     def one(i):
-        return run_conc(binary, plan[i][0], plan[i][1], seed, os.path.join(dirs[i % 8], "p%d" % i))
+        return run_conc(binary, plan[i][0], plan[i][1], seed, os.path.join(dirs[i % 8], "p%d" % i), procs=[None, 1, 2, 4, None][i % 5])
     for i in range(len(plan)):
         os.makedirs(os.path.join(dirs[i % 8], "p%d" % i), exist_ok=True)
     with ThreadPoolExecutor(max_workers=8) as ex:
